@@ -139,7 +139,6 @@ deriving DecidableEq, Repr
 /-! ### Clauses -/
 
 inductive Clause
-  | badObs
   /-- closes_iff_T_consecutive: pings k+1-T..k all failed but the session was not closed -/
   | notClosed (k T : Nat)
   /-- answer_resets: closed right after a ping the peer answers -/
